@@ -808,3 +808,110 @@ func offName(k int) string {
 	}
 	return fmt.Sprintf("L%d", k)
 }
+
+// --- length mode is the normal mode until the first byte the normal mode refuses -------------------
+
+func init() {
+	for _, sp := range []lenSpec{
+		{rel: "notations/jschema/internal/scanner", ctor: "New", typ: "Scanner", flag: "lengthComputing", name: "schema"},
+		{rel: "rules/enum", ctor: "newScanner", typ: "scanner", flag: "lengthComputing", name: "enum"},
+	} {
+		sp := sp
+		register(&Rule{ID: "LEN-mode-" + sp.name, Min: 2, Run: func(c *load.Ctx, r *report.RuleResult) { runLenMode(c, r, sp) },
+			Doc: "scanner " + sp.name + ": computing a length reads the text exactly as checking it does, up to the first byte checking refuses: the scanner model with the length flag set and the one without it, explored side by side from the start over all 256 bytes, accept the same bytes with the same lexical events wherever the normal mode accepts — annotations, notes and comments included — so the length mode may differ only in what it does with a byte that is foreign to the notation (an annotation glued to a top-level scalar is part of the schema, not the beginning of the enclosing text)"})
+	}
+}
+
+func runLenMode(c *load.Ctx, r *report.RuleResult, sp lenSpec) {
+	normal, err := newScanModel(c, sp.rel, sp.ctor, sp.typ, nil)
+	if err != nil {
+		r.Unk("anchor|"+sp.rel+" scanner", "", err.Error())
+		return
+	}
+	length, err := newScanModel(c, sp.rel, sp.ctor, sp.typ, func(m *scanModel, in *pe.Interp, s *pe.Ptr) {
+		in.Store(in.FieldPtr(s, sp.flag), true)
+	})
+	if err != nil {
+		r.Unk("anchor|"+sp.rel+" scanner", "", err.Error())
+		return
+	}
+	if sp.name == "enum" {
+		for _, m := range []*scanModel{normal, length} {
+			if err := prepareEnumModel(c, m); err != nil {
+				r.Unk("anchor|"+sp.rel, "", err.Error())
+				return
+			}
+		}
+	}
+	type pair struct {
+		n, l *implState
+		path string
+	}
+	start := pair{normal.Initial(), length.Initial(), ""}
+	seen := map[string]bool{start.n.key + "\x00" + start.l.key: true}
+	queue := []pair{start}
+	const maxPairs = 1500
+	pairs, compared, skipped := 0, 0, 0
+	perStep := map[string]int{}
+	bad := map[string]bool{}
+	for len(queue) > 0 && pairs < maxPairs {
+		p := queue[0]
+		queue = queue[1:]
+		pairs++
+		if len(normal.stackTypes(p.n)) > 4 {
+			continue
+		}
+		step := baseStepName(implStepName(normal, p.n))
+		for b := 0; b < 256; b++ {
+			rn := normal.Feed(p.n, b)
+			if rn.Kind != "ok" {
+				if rn.Kind == "lookahead" || rn.Kind == "undecided" {
+					skipped++
+				}
+				continue
+			}
+			rl := length.Feed(p.l, b)
+			if rl.Kind == "lookahead" || rl.Kind == "undecided" {
+				skipped++
+				continue
+			}
+			compared++
+			perStep[step]++
+			key := "lenmode|impl=" + step
+			in := fmt.Sprintf("%q", string([]byte{byte(b)}))
+			switch {
+			case bad[key]:
+			case rl.Kind != "ok":
+				bad[key] = true
+				r.Bad(key, c.Pos(normal.next.Pos()), fmt.Sprintf("after %q the byte %s is accepted when the text is checked but ends the scan (%s %s) when its length is computed", p.path, in, rl.Kind, rl.Code))
+			case evsString(rn.Events) != evsString(rl.Events):
+				bad[key] = true
+				r.Bad(key, c.Pos(normal.next.Pos()), fmt.Sprintf("after %q the byte %s delivers %s when the text is checked and %s when its length is computed: the length is that of another text", p.path, in, orNone(evsString(rn.Events)), orNone(evsString(rl.Events))))
+			case baseStepName(implStepName(normal, rn.Next)) != baseStepName(implStepName(length, rl.Next)):
+				bad[key] = true
+				r.Bad(key, c.Pos(normal.next.Pos()), fmt.Sprintf("after %q the byte %s leads to %s when the text is checked and to %s when its length is computed", p.path, in, baseStepName(implStepName(normal, rn.Next)), baseStepName(implStepName(length, rl.Next))))
+			}
+			if rl.Kind != "ok" || bad[key] {
+				continue
+			}
+			k := rn.Next.key + "\x00" + rl.Next.key
+			if !seen[k] {
+				seen[k] = true
+				queue = append(queue, pair{rn.Next, rl.Next, p.path + string([]byte{byte(b)})})
+			}
+		}
+	}
+	for _, st := range sortedKeys(perStep) {
+		if !bad["lenmode|impl="+st] {
+			r.OK("lenmode|impl="+st, "", fmt.Sprintf("%d transitions: same verdict, events and successor in both modes", perStep[st]))
+		}
+	}
+	r.Note("scanner %s: %d state pairs, %d transitions compared, %d with look-ahead skipped", sp.name, pairs, compared, skipped)
+}
+
+func orNone(s string) string {
+	if s == "" {
+		return "nothing"
+	}
+	return s
+}
